@@ -92,11 +92,22 @@ def main(pid, tier, seed, replay):
             for b in BLOCKS:
                 for bits in range(1 << 10):
                     cases.append((2, [[a], [b]], " ".join(str((bits >> k) & 1) for k in range(10)) + " 0 1 0 1 0 1 0 1"))
-    rc, out, err = C.sh([harness], input="".join(line_for(*c) + "\n" for c in cases).encode(), timeout=6000)
-    ilines = out.splitlines()
-    if rc != 0 or len(ilines) != len(cases):
-        chk.violation("lock harness died (rc=%s) after %d of %d cases: %s" % (rc, len(ilines), len(cases), err[-300:]),
-                      {"case": line_for(*cases[min(len(ilines), len(cases) - 1)])})
+    answers, crashed = C.run_resumable(harness, [line_for(*c) for c in cases], timeout=6000)
+    if crashed is not None:
+        chk.violation("lock harness died on case %d of %d" % (crashed, len(cases)), {"case": line_for(*cases[crashed])})
+    kept, ilines, nstuck = [], [], 0
+    for c, a in zip(cases, answers):
+        if a is None:
+            continue
+        if a.startswith("STUCK-EXIT"):
+            nstuck += 1
+            if nstuck <= 5:
+                chk.finding(None, "C30 fails on the real lock: a lock operation never completed under the schedule (%s)" % " ".join(a.split()[1:3]),
+                            {"case": line_for(c[0], c[1], " ".join(a.split("sched", 1)[1].split())), "harness_answer": a[:600]})
+            continue
+        kept.append(c)
+        ilines.append(a)
+    cases = kept
     parsed = [parse_impl(l) for l in ilines]
     minput = "".join(line_for(c[0], c[1], " ".join(p[0])) + "\n" for c, p in zip(cases, parsed))
     rc, mout, err = C.sh([model], input=minput.encode(), timeout=1800)
